@@ -390,6 +390,10 @@ func (a *AV) Go(shared map[*AV]interface{}) interface{} {
 		if v, ok := shared[a]; ok {
 			return v
 		}
+		if a.Nil && len(a.Keys) == 0 {
+			// a nil map of the object type inside the object: a non-nil interface value, every lookup in it is absent
+			return map[string]interface{}(nil)
+		}
 		m := make(map[string]interface{}, len(a.Keys))
 		shared[a] = m
 		for i, k := range a.Keys {
